@@ -12,6 +12,7 @@ import (
 	"math/rand"
 	"os"
 	"regexp"
+	"strconv"
 	"strings"
 	"unicode/utf16"
 )
@@ -853,7 +854,7 @@ func genMain(args []string) {
 			continue
 		}
 		if *prof == "numops" {
-			ops := []string{"+", "-", "*", "/", "%", "%", "<", "<=", ">", ">=", "=", "!=", "&"}
+			ops := []string{"+", "-", "*", "/", "%", "%", "<", "<=", ">", ">=", "=", "!=", "&", ".."}
 			x, y := g.numX(), g.numX()
 			switch g.r.Intn(4) {
 			case 0:
@@ -865,6 +866,34 @@ func genMain(args []string) {
 				x["e"], y["e"] = g.r.Intn(22), g.r.Intn(4)
 			}
 			c := M{"fn": "op", "op": ops[g.r.Intn(len(ops))], "xd": x, "yd": y}
+			if c["op"] == ".." {
+				// whole-number bounds a few items or far more than the limit apart (never millions of items)
+				x["e"] = g.r.Intn(3)
+				lo := 0
+				for _, d := range x["ds"].([]interface{}) {
+					lo = lo*10 + d.(int)
+					if lo > 100000 {
+						break
+					}
+				}
+				if lo <= 100000 && x["e"].(int) == 0 && g.r.Intn(2) == 0 {
+					hi := lo + []int{0, 1, 5, 1000, -3}[g.r.Intn(5)]
+					if x["sg"].(int) < 0 {
+						hi = -lo + []int{0, 1, 5, 1000, -3}[g.r.Intn(5)]
+					}
+					sg := 1
+					if hi < 0 {
+						sg, hi = -1, -hi
+					}
+					ds := []interface{}{}
+					for _, ch := range strconv.Itoa(hi) {
+						ds = append(ds, int(ch-'0'))
+					}
+					c["yd"] = M{"sg": sg, "ds": ds, "e": 0}
+				} else {
+					y["e"] = 9 + g.r.Intn(12)
+				}
+			}
 			if g.r.Intn(5) == 0 {
 				c["yd"] = x
 				c["ynudge"] = g.r.Intn(3) - 1
